@@ -88,6 +88,19 @@ class Rewriter:
         i = self.site(kind, text)
         return ["  lea -128(%rsp), %rsp", "  push $%d" % i, "  call __sim_yield", "  lea 136(%rsp), %rsp"]
 
+    def access(self, kind, text, mem, size):
+        """a scheduling point that also tells the simulator WHICH bytes the instruction is about to load ('l') or store ('s'):
+        the store-buffer model (TSO) needs the address; with the model off it is an ordinary scheduling point"""
+        i = self.site(kind, text)
+        assert i < (1 << 24) and 0 < size <= 16
+        imm = i | size << 24 | (1 << 30 if kind == "s" else 0)
+        self.stats["addressed_" + ("stores" if kind == "s" else "loads")] = self.stats.get("addressed_" + ("stores" if kind == "s" else "loads"), 0) + 1
+        return ["  lea -128(%rsp), %rsp", "  push %rax", "  lea %s, %%rax" % mem, "  push %rax", "  mov 8(%rsp), %rax",
+                "  push $%d" % imm, "  call __sim_access", "  lea 152(%rsp), %rsp"]
+
+    def store_post(self):
+        return ["  lea -128(%rsp), %rsp", "  call __sim_store_post", "  lea 128(%rsp), %rsp"]
+
     def one(self, ins):
         """ins: one instruction (no leading blanks, no ';'); returns list of lines"""
         raw = ins
@@ -104,6 +117,8 @@ class Rewriter:
             rest = p2[1] if len(p2) > 1 else ""
         if mn.startswith("rep"):
             return ["  " + raw]
+        if mn == "mfence":
+            return self.yld("A", raw) + ["  " + raw]    # a full barrier: the store buffer drains here
         ops = split_ops(rest)
         memidx = None
         for i, o in enumerate(ops):
@@ -142,6 +157,36 @@ class Rewriter:
         if not rmw:
             if is_dest and stem in ("shl", "shr", "sar", "sal", "rol", "ror", "bts", "btr", "btc"):
                 self.stats["unmodelled_nonlocked_rmw"] += 1
+            # plain stores and plain loads: the simulator is told the address (store-buffer model)
+            asz = None
+            if "%rsp" not in mem and "%esp" not in mem:
+                if is_dest:
+                    if mn in ("mov", "movb", "movw", "movl", "movq"):
+                        asz = size if mn == "mov" or size else None
+                        if mn != "mov" and not asz:
+                            asz = SUFFIX[mn[-1]]
+                        if mn == "movq" and any(o.startswith("%xmm") for o in ops):
+                            asz = 8
+                    asz = {"movss": 4, "movsd": 8, "movd": 4, "movups": 16, "movaps": 16, "movdqu": 16, "fstps": 4, "fstpl": 8, "fstpt": 10, "fsts": 4, "fstl": 8}.get(mn, asz)
+                else:
+                    m2 = re.fullmatch(r"mov[sz]([bw])[wlq]", mn)
+                    if m2:
+                        asz = SUFFIX[m2.group(1)]
+                    elif mn in ("movslq", "movsxd"):
+                        asz = 4
+                    elif mn in ("mov", "movb", "movw", "movl", "movq", "cmp", "cmpb", "cmpw", "cmpl", "cmpq", "test", "testb", "testw", "testl", "testq",
+                                "add", "sub", "and", "or", "xor", "imul", "addl", "addq", "subl", "subq"):
+                        asz = size or SUFFIX.get(mn[-1])
+                        if mn == "movq" and any(o.startswith("%xmm") for o in ops):
+                            asz = 8
+                    asz = {"movss": 4, "movsd": 8, "movd": 4, "movups": 16, "movaps": 16, "movdqu": 16, "flds": 4, "fldl": 8, "fldt": 10,
+                           "cvtss2sd": 4, "cvtsd2ss": 8, "ucomiss": 4, "ucomisd": 8, "comiss": 4, "comisd": 8}.get(mn, asz)
+                    if asz is None:
+                        asz = 16    # unknown width: the overlap test errs on the side of draining
+            if asz:
+                if is_dest:
+                    return self.access("s", raw, mem, asz) + ["  " + raw] + self.store_post()
+                return self.access("l", raw, mem, asz) + ["  " + raw]
             return self.yld("S" if is_dest else "L", raw) + ["  " + raw]
         if size is None:
             self.stats["unmodelled_nonlocked_rmw"] += 1
